@@ -21,15 +21,22 @@ LAWS = ['GetAfterSet', 'Frame', 'FrameMissingStaysMissing', 'SetCurrentIsIdentit
         'SelfReplaces', 'LeavesReadBack', 'ApplyMapsLeaves']
 
 
+AB = dict(KeyA='a', KeyB='b')
+# dict keys that are the plain strings 'SELF' / 'SKIP' (not the reserved Key.SELF / Key.SKIP objects)
+RESERVED = dict(KeyA='SELF', KeyB='SKIP')
+
+
 def _bounds(tier):
   if tier == 'thorough':
-    return dict(mc=[dict(TreeDepth=1, MaxSets=1, PathLen=2), dict(TreeDepth=2, MaxSets=0, PathLen=2)],
-                mc_nolaws=[dict(TreeDepth=2, MaxSets=0, PathLen=3)],
-                gen=dict(TreeDepth=1, MaxSets=1, PathLen=2),
-                sim=dict(TreeDepth=2, MaxSets=3, PathLen=3), sim_num=12000)
-  return dict(mc=[dict(TreeDepth=1, MaxSets=1, PathLen=2)], mc_nolaws=[],
-              gen=dict(TreeDepth=1, MaxSets=1, PathLen=2),
-              sim=dict(TreeDepth=2, MaxSets=3, PathLen=3), sim_num=1500)
+    return dict(mc=[dict(TreeDepth=1, MaxSets=1, PathLen=2, **AB), dict(TreeDepth=2, MaxSets=0, PathLen=2, **AB)],
+                mc_nolaws=[dict(TreeDepth=2, MaxSets=0, PathLen=3, **AB)],
+                gen=[dict(TreeDepth=1, MaxSets=1, PathLen=2, **AB), dict(TreeDepth=1, MaxSets=1, PathLen=2, **RESERVED)],
+                sim=[dict(TreeDepth=2, MaxSets=3, PathLen=3, **AB), dict(TreeDepth=2, MaxSets=3, PathLen=3, **RESERVED)],
+                sim_num=6000)
+  return dict(mc=[dict(TreeDepth=1, MaxSets=1, PathLen=2, **AB)], mc_nolaws=[],
+              gen=[dict(TreeDepth=1, MaxSets=1, PathLen=2, **AB), dict(TreeDepth=1, MaxSets=1, PathLen=2, **RESERVED)],
+              sim=[dict(TreeDepth=2, MaxSets=3, PathLen=3, **AB), dict(TreeDepth=2, MaxSets=3, PathLen=3, **RESERVED)],
+              sim_num=800)
 
 
 # ------------------------------------------------------------------ conversions
@@ -277,16 +284,19 @@ def body(chk):
     chk.add_tlc(mc, f'TreeView/MC-long-paths/{c}')
     if not mc.ok:
       chk.machinery_failure(f'TreeView.tla violates {mc.error_kind} {mc.error_name}')
-  gen = tlc.run('pipeline', 'TreeView', tlc.cfg_text(constants=b['gen'], invariants=['Emit'], deadlock=False),
-                workers=1, timeout=1800)
-  if not gen.ok:
-    chk.machinery_failure(f'TreeView export failed: {gen.error_kind} {gen.error_name}')
-  hs = list(gen.histories)
+  hs = []
+  for c in b['gen']:
+    gen = tlc.run('pipeline', 'TreeView', tlc.cfg_text(constants=c, invariants=['Emit'], deadlock=False),
+                  workers=1, timeout=1800)
+    if not gen.ok:
+      chk.machinery_failure(f'TreeView export failed: {gen.error_kind} {gen.error_name}')
+    hs += list(gen.histories)
   chk.count('behaviours_exhaustive', len(hs))
-  sim = tlc.run('pipeline', 'TreeView', tlc.cfg_text(constants=b['sim'], invariants=['Emit'], deadlock=False),
-                workers=1, timeout=900, simulate=f'num={b["sim_num"]}', depth=b['sim']['MaxSets'] + 1, seed=chk.seed + 3)
-  chk.count('behaviours_simulated', len(sim.histories))
-  hs += sim.histories
+  for c in b['sim']:
+    sim = tlc.run('pipeline', 'TreeView', tlc.cfg_text(constants=c, invariants=['Emit'], deadlock=False),
+                  workers=1, timeout=900, simulate=f'num={b["sim_num"]}', depth=c['MaxSets'] + 1, seed=chk.seed + 3)
+    chk.count('behaviours_simulated', len(sim.histories))
+    hs += sim.histories
   ok_sets = sum(1 for h in hs for s in h['steps'] if s['result']['k'] != 'err')
   err_sets = sum(1 for h in hs for s in h['steps'] if s['result']['k'] == 'err')
   chk.coverage['successful_sets'] = ok_sets
